@@ -405,6 +405,128 @@ class ClosePath:
                 client.receive_datagram(d, sa, now=now)
         return client, server, now
 
+    V1, V2 = 0x00000001, 0x6B3343CF
+    PHASES = ("client-confirmed", "server-confirmed", "client-complete-not-confirmed", "server-early")
+
+    def scenario(self, phase, version=0x00000001, mds=1200):
+        """(closer, peer, now) in the given handshake phase.
+        client-complete-not-confirmed: the client has finished the handshake (owns 1-RTT keys) but every server
+        datagram after that is lost (no HANDSHAKE_DONE): it still owns Handshake keys and coalesces a Handshake and
+        a 1-RTT close, while the server has discarded its Handshake keys."""
+        cc = self.QuicConfiguration(is_client=True, alpn_protocols=["h3"], max_datagram_size=mds,
+                                    original_version=version, supported_versions=[version])
+        cc.load_verify_locations(cafile=self.ca)
+        sc = self.QuicConfiguration(is_client=False, alpn_protocols=["h3"], max_datagram_size=mds,
+                                    original_version=version, supported_versions=[version])
+        sc.load_cert_chain(self.cert, self.key)
+        client = self.QuicConnection(configuration=cc)
+        client._ack_delay = 0
+        server = self.QuicConnection(
+            configuration=sc, original_destination_connection_id=client.original_destination_connection_id)
+        server._ack_delay = 0
+        ca, sa = ("1.2.3.4", 1234), ("2.3.4.5", 4433)
+        now = 1000.0
+        client.connect(sa, now=now)
+
+        def c2s():
+            for d, _a in client.datagrams_to_send(now=now):
+                server.receive_datagram(d, ca, now=now)
+
+        def s2c(deliver=True):
+            for d, _a in server.datagrams_to_send(now=now):
+                if deliver:
+                    client.receive_datagram(d, sa, now=now)
+        if phase == "server-early":
+            now += 0.01
+            c2s()
+            return server, client, now
+        if phase == "client-complete-not-confirmed":
+            for _ in range(10):
+                now += 0.01
+                c2s()
+                if client._handshake_complete:
+                    break
+                s2c()
+            s2c(deliver=False)          # HANDSHAKE_DONE (and everything else) lost
+            assert client._handshake_complete and not client._handshake_confirmed, "phase not reached"
+            return client, server, now
+        for _ in range(6):
+            now += 0.01
+            c2s()
+            s2c()
+        assert client._handshake_confirmed and server._handshake_confirmed
+        return (client, server, now) if phase == "client-confirmed" else (server, client, now)
+
+    def close_on_wire(self, phase, version, mds, error_code, reason):
+        """close(error_code, reason) on the closer, hand its datagrams to the REAL peer and judge at the receiver:
+        plaintext of every packet the peer could decrypt is parsed by harness/frames.py (independent decoder).
+        Returns (problem or None, details)."""
+        from harness import frames as F
+        from aioquic.quic import events as qe
+        closer, peer, now = self.scenario(phase, version, mds)
+        peer_has_1rtt = False
+        try:
+            from aioquic import tls
+            peer_has_1rtt = peer._cryptos[tls.Epoch.ONE_RTT].recv.is_valid()
+        except Exception:
+            pass
+        seen = []
+        real = peer._payload_received
+
+        def tap(context, plain, *a, **kw):
+            try:
+                fr = F.parse_frames(bytes(plain))
+            except F.ParseError as e:
+                fr = [{"type": -1, "error": str(e)}]
+            for f in fr:
+                if f["type"] in (0x1C, 0x1D):
+                    seen.append((context.epoch.name, f["type"], f["error_code"], len(f["reason"]), bytes(f["reason"])))
+            return real(context, plain, *a, **kw)
+        peer._payload_received = tap
+        closer.close(error_code=error_code, reason_phrase=reason)
+        try:
+            out = closer.datagrams_to_send(now=now + 0.1)
+        except Exception as e:
+            return f"{type(e).__name__} escapes datagrams_to_send (raised in {innermost_aioquic_function(e)})", {}
+        sizes = [len(d) for d, _a in out]
+        addr = ("9.9.9.9", 999)
+        for d, _a in out:
+            try:
+                peer.receive_datagram(d, addr, now=now + 0.2)
+            except Exception as e:
+                return f"{type(e).__name__} escapes the peer's receive_datagram on the closing datagram", {}
+        term = None
+        ev = peer.next_event()
+        while ev is not None:
+            if isinstance(ev, qe.ConnectionTerminated):
+                term = ev
+            ev = peer.next_event()
+        det = {"datagram_sizes": sizes, "closes_decrypted_by_peer": [(e, hex(t), c, n) for e, t, c, n, _ in seen],
+               "peer_has_1rtt_keys": peer_has_1rtt, "peer_state": str(peer._state)}
+        problem = None
+        if not out:
+            problem = "no closing datagram produced"
+        elif any(n > mds for n in sizes):
+            problem = f"closing datagram of {max(sizes)} bytes exceeds max_datagram_size {mds}"
+        elif not seen:
+            problem = "the peer could not decrypt any packet carrying a CONNECTION_CLOSE frame"
+        elif peer_has_1rtt:
+            app = [x for x in seen if x[1] == 0x1D]
+            want = reason.encode("utf8")
+            if not any(x[2] == error_code for x in app):
+                problem = (f"the peer (which owns 1-RTT keys) received no application CONNECTION_CLOSE carrying the "
+                           f"error code 0x{error_code:x}")
+            elif not all(want.startswith(x[4]) for x in app if x[2] == error_code):
+                problem = "the reason phrase received is not a prefix of the one given to close()"
+            else:
+                try:
+                    [x[4].decode("utf8") for x in app]
+                except UnicodeDecodeError:
+                    problem = "the reason phrase on the wire is not valid UTF-8"
+        if problem is None and "DRAINING" not in str(peer._state) and "TERMINATED" not in str(peer._state):
+            problem = f"the peer did not enter the draining state (state {peer._state})"
+        return problem, det
+
     def close_with(self, which, error_code, reason, early=False, frame_type=None):
         """returns (None, datagrams) if the close packet was produced, else
         ((exception, function), None)"""
